@@ -376,3 +376,49 @@ Theorem C12_model_is_source_cli_reveal_plate_reveal : forall (load : Cli.path ->
     Ok [(Cli.rp_output a, s')].
 Proof. exact C12SourceCliReveal.src_cli_reveal_plate_reveal. Qed.
 Print Assumptions C12_model_is_source_cli_reveal_plate_reveal.
+
+(* ---- the guards of reveal, read PER PLATE ("revealing refuses plates whose stored values are all zero or contain NaN") ----
+   plate_values s pid = the stored values of the rows whose plate id is pid (end of Model/Reveal.v).  The code evaluates
+   both guards on the union of the selected rows; per plate the NaN half holds as stated, the zero half only when EVERY
+   named plate is all zero, and the clause as the property words it is FALSE of the source: the all-zero plate is
+   revealed when it is named together with a plate holding a non-zero value (KNOWN_FINDINGS: reveal-zero-guard-is-joint). *)
+From Batchie Require Proofs.C12PerPlate.
+Theorem C12_reveal_refuses_nan_per_plate : forall v s ids pid,
+  In pid ids -> existsb obs_is_nan (plate_values s pid) = true -> reveal_plates v s ids = Err 9.
+Proof. exact C12PerPlate.reveal_refuses_nan_per_plate. Qed.
+Print Assumptions C12_reveal_refuses_nan_per_plate.
+
+Theorem C12_reveal_refuses_zero_every_plate_partial : forall v s ids,
+  (forall pid, In pid ids -> forallb obs_is_zero (plate_values s pid) = true) -> reveal_plates v s ids = Err 8.
+Proof. exact C12PerPlate.reveal_refuses_zero_every_plate. Qed.
+Print Assumptions C12_reveal_refuses_zero_every_plate_partial.
+
+(* refutation of "forall s ids pid, In pid ids -> plate pid all zero -> reveal refuses": a constructed screen, an
+   unobserved non-empty all-zero plate pid named in ids, which alone is refused (tag 8), and the TRANSLATED
+   reveal_plates (= the model's with the mappings carried) returns a screen in which that plate is observed *)
+Theorem C12_reveal_refuses_zero_per_plate_refuted :
+  exists s ids pid s',
+    constructed s /\ In pid ids /\ In pid (s_pids s) /\ plate_observed s pid = false /\
+    plate_values s pid <> [] /\ forallb obs_is_zero (plate_values s pid) = true /\
+    reveal_plates (carry_mappings true) s [pid] = Err 8 /\
+    src_reveal_plates s ids = Ok s' /\ reveal_plates (carry_mappings true) s ids = Ok s' /\
+    plate_observed s' pid = true.
+Proof. exact C12PerPlate.reveal_zero_guard_is_joint. Qed.
+Print Assumptions C12_reveal_refuses_zero_per_plate_refuted.
+
+(* ---- "the number of unobserved plates REPORTED for the screen" ----
+   instance of C12_model_is_source_cli_extract_screen_metadata with the library record filled by the TRANSLATED
+   Screen.plates / ScreenBase.is_observed / n_plates / n_unique_samples / n_unique_treatments / size (C12SourceCliCounters.em_src_lib;
+   their links to Model/Views.v are C14's): on a constructed screen the JSON object's counters ARE Model/Reveal.v's n_plates,
+   n_unobserved_plates, n_observed_plates - the counters C12_unobserved_drop and C12_counters_add_up speak about. *)
+From Batchie Require Model.Views Proofs.C12SourceCliCounters.
+Theorem C12_model_is_source_cli_extract_screen_metadata_counters :
+  forall (load : Cli.path -> result Views.pyscreen) (a : Cli.em_args) (s : Views.pyscreen),
+  load (Cli.em_screen a) = Ok s -> constructed (snd s) ->
+  SrcCli.src_cli_extract_screen_metadata Views.pyscreen Views.view (C12SourceCliCounters.em_src_lib load) a
+  = Ok [(Cli.em_output a,
+         Cli.mk_meta (Z.of_nat (n_unique_samples_rows (snd s))) (Z.of_nat (length (Views.screen_unique_treatments (snd s))))
+                     (Z.of_nat (length (s_tids (snd s)))) (Z.of_nat (n_plates (snd s)))
+                     (Z.of_nat (n_unobserved_plates (snd s))) (Z.of_nat (n_observed_plates (snd s))))].
+Proof. exact C12SourceCliCounters.src_cli_extract_screen_metadata_counters. Qed.
+Print Assumptions C12_model_is_source_cli_extract_screen_metadata_counters.
